@@ -170,6 +170,7 @@ func lemInsertAtLowerBoundStaysStrict(s0, s1 []int, p, x int) {}
 //@ func (*filesystemBackstore).Put
 //@   props C19
 //@   ensures [forward] result == nil ==> final(curAssert) == nil || final(curAssert).Revision() < assert.Revision()
+//@   guard call currentAssertion: [all-formats] arg1 == assertType && arg3 == assertType.MaxSupportedFormat()
 //@   guard call atomicWriteEntry: err == errNotFound || (err == nil && curAssert.Revision() < assert.Revision())
 
 // ---- Database.Add -------------------------------------------------------------------------------
